@@ -43,7 +43,7 @@ PROBES = ["off_segment", "fired_running", "fired_halted", "delivery", "nested_de
           "both_timers_same_step", "two_sources_deliverable", "halted_boundary", "off_boundary"]
 
 ALLOW = {"timers": True, "keys": True, "onk": True, "imr_writes": True, "isr_writes": True, "wait": True,
-         "halt": True, "off": True, "ir": True, "calls": True, "far_calls": True, "nested": True, "bare_reti": True}
+         "halt": True, "off": True, "ir": True, "calls": True, "far_calls": True, "nested": True, "bare_reti": True, "h_lowpower": True}
 
 
 def batches(tier: str) -> List[Batch]:
